@@ -357,3 +357,121 @@ Section Designate.
                 (record_children (fst (designate ids s)) ++ all_items (snd (designate ids s))).
   Proof. exact (designate_fold_perm ids [] s). Qed.
 End Designate.
+
+(* ================= addresses, REMOVE, SET, VAL ================= *)
+Section Address.
+  Context {FO : FloatOps}.
+
+  Lemma len32_small {A} (l : list A) : zlen l <= max32 -> len32 l = zlen l.
+  Proof.
+    intro H. unfold len32. apply wrap32_id. unfold in_i32, min32, max32 in *.
+    pose proof (zlen_nonneg l). lia.
+  Qed.
+
+  Lemma clamp_is_clamped idx len : 0 < len -> clamp_idx idx len = clamped_pos idx len.
+  Proof. intro H. unfold clamp_idx, clamped_pos. destruct (idx <? 0) eqn:E1; [lia|]. destruct (len <=? idx) eqn:E2; lia. Qed.
+
+  Lemma record_address_clamped_lemma (s : state) (idx : Z) :
+    0 < zlen (st_code s) <= max32 ->
+    record_pos s idx = clamped_pos idx (zlen (st_code s)) /\
+    0 <= record_pos s idx < zlen (st_code s) /\
+    (0 <= idx < zlen (st_code s) -> record_pos s idx = idx) /\
+    (idx < 0 -> record_pos s idx = 0) /\
+    (zlen (st_code s) <= idx -> record_pos s idx = zlen (st_code s) - 1).
+  Proof.
+    intros [H1 H2]. unfold record_pos. rewrite len32_small by exact H2.
+    rewrite clamp_is_clamped by exact H1. unfold clamped_pos.
+    destruct (idx <? 0) eqn:E1; destruct (zlen (st_code s) <=? idx) eqn:E2; lia.
+  Qed.
+
+  Lemma del_split {A} (l : list A) : forall k, del l k = firstn k l ++ skipn (S k) l.
+  Proof.
+    induction l as [|x r IH]; intros [|k]; cbn [del firstn skipn app]; try reflexivity.
+    - f_equal. rewrite IH. reflexivity.
+  Qed.
+  Lemma upd_split {A} (l : list A) a : forall k, (k < length l)%nat ->
+    upd l k a = firstn k l ++ a :: skipn (S k) l.
+  Proof.
+    induction l as [|x r IH]; intros [|k] H; cbn [upd firstn skipn app length] in *; try lia; try reflexivity.
+    f_equal. apply IH. lia.
+  Qed.
+
+  Lemma l_copy_in {A} (l : list A) i : 0 <= i < zlen l -> l_copy l i = nth_error l (Z.to_nat i).
+  Proof. intro H. unfold l_copy. replace ((0 <=? i) && (i <? zlen l)) with true by lia. reflexivity. Qed.
+
+  (* LIST.REMOVE *)
+  Lemma list_remove_lemma (s : state) (idx : Z) (r : list Z) :
+    st_int s = idx :: r ->
+    zlen (st_code s) <= max32 ->
+    let code := st_code s in
+    let pos := Z.to_nat (clamped_pos idx (zlen code)) in
+    list_remove s = Ok (set_code (set_int s r)
+                          (match code with [] => [] | _ => firstn pos code ++ skipn (S pos) code end)).
+  Proof.
+    intros Hi Hl code pos. unfold list_remove. rewrite Hi. cbn zeta.
+    unfold record_pos. change (st_code (set_int s r)) with code.
+    destruct code as [|c0 cr] eqn:Ec.
+    - unfold l_remove. destruct (_ && _); reflexivity.
+    - assert (Hpos : 0 < zlen (c0 :: cr)) by (rewrite zlen_cons; pose proof (zlen_nonneg cr); lia).
+      fold code in Hl. rewrite Ec in Hl.
+      rewrite len32_small by exact Hl. rewrite clamp_is_clamped by exact Hpos.
+      unfold l_remove. pose proof (clamp_idx_range idx _ Hpos) as Hr. rewrite clamp_is_clamped in Hr by exact Hpos.
+      replace ((0 <=? clamped_pos idx (zlen (c0 :: cr))) && (clamped_pos idx (zlen (c0 :: cr)) <? zlen (c0 :: cr))) with true by lia.
+      now rewrite del_split.
+  Qed.
+
+  (* LIST.SET (repaired code) *)
+  Lemma list_set_lemma (s : state) (idx : Z) (r : list Z) (ids : list Z) (vr : list (list Z)) :
+    st_int s = idx :: r ->
+    st_ivec s = ids :: vr ->
+    let d := designate ids (set_ivec (set_int s r) vr) in
+    let code := st_code (snd d) in
+    let pos := Z.to_nat (clamped_pos idx (zlen code)) in
+    zlen code <= max32 ->
+    list_set s = Ok (set_code (snd d)
+                       (match code with [] => [] | _ => firstn pos code ++ fst d :: skipn (S pos) code end)).
+  Proof.
+    intros Hi Hv d code pos Hl. unfold list_set. rewrite Hi. cbn zeta. unfold load_items.
+    change (st_ivec (set_int s r)) with (st_ivec s). rewrite Hv.
+    change (set_ivec (set_int s r) vr) with (set_ivec (set_int s r) vr).
+    pose proof (load_ids_designate ids (set_ivec (set_int s r) vr)) as HD. fold d in HD.
+    destruct (load_ids ids (set_ivec (set_int s r) vr)) as [items s2]. cbn [fst snd] in HD.
+    assert (H1 : mk_record items = fst d) by (now rewrite <- HD).
+    assert (H2 : s2 = snd d) by (now rewrite <- HD).
+    rewrite H1, H2. fold code. unfold record_pos. fold code.
+    destruct code as [|c0 cr] eqn:Ec.
+    - unfold l_replace. destruct (_ && _); reflexivity.
+    - assert (Hpos : 0 < zlen (c0 :: cr)) by (rewrite zlen_cons; pose proof (zlen_nonneg cr); lia).
+      rewrite len32_small by exact Hl. rewrite clamp_is_clamped by exact Hpos.
+      unfold l_replace. pose proof (clamp_idx_range idx _ Hpos) as Hr. rewrite clamp_is_clamped in Hr by exact Hpos.
+      replace ((0 <=? clamped_pos idx (zlen (c0 :: cr))) && (clamped_pos idx (zlen (c0 :: cr)) <? zlen (c0 :: cr))) with true by lia.
+      rewrite upd_split; [reflexivity|]. clear - Hr. unfold zlen in *. lia.
+  Qed.
+
+  Lemma list_set_no_operands (s : state) :
+    (st_int s = [] -> list_set s = Ok s) /\
+    (forall idx r, st_int s = idx :: r -> st_ivec s = [] -> list_set s = Ok (set_int s r)).
+  Proof.
+    split.
+    - intro H. unfold list_set. now rewrite H.
+    - intros idx r H Hv. unfold list_set, load_items. rewrite H. cbn zeta.
+      change (st_ivec (set_int s r)) with (st_ivec s). now rewrite Hv.
+  Qed.
+
+  (* LIST.BVAL / IVAL / FVAL *)
+  Lemma list_val_lemma {A} (f : item -> Z -> A) (push : state -> A -> state) (s : state) (n idx : Z) (r : list Z) :
+    st_int s = n :: idx :: r ->
+    0 < zlen (st_code s) <= max32 ->
+    exists t, nth_error (st_code s) (Z.to_nat (clamped_pos idx (zlen (st_code s)))) = Some t /\
+              list_val f push s = Ok (push (set_int s r) (f t (i32_as_usize n))).
+  Proof.
+    intros Hi [H1 H2]. unfold list_val. rewrite Hi. cbn zeta. unfold record_pos.
+    change (st_code (set_int s r)) with (st_code s).
+    rewrite len32_small by exact H2. rewrite clamp_is_clamped by exact H1.
+    pose proof (clamp_idx_range idx _ H1) as Hr. rewrite clamp_is_clamped in Hr by exact H1.
+    rewrite l_copy_in by exact Hr.
+    destruct (nth_error (st_code s) (Z.to_nat (clamped_pos idx (zlen (st_code s))))) as [t|] eqn:E.
+    - exists t. split; reflexivity.
+    - apply nth_error_None in E. clear - E Hr. unfold zlen in *. lia.
+  Qed.
+End Address.
